@@ -318,8 +318,9 @@ def gen_settings(rng, comp, bad=False):
 
 
 def gen_graph(rng, malformed=False):
-    name = rng.choice([None, None, "pipe", "Pipe-é", "p 1"])
-    version = rng.choice([None, None, "1", "2025.1"])
+    # boundary value: the EMPTY string is a name / version of its own, not "no name" (session 2, seed C13-11)
+    name = rng.choice([None, None, "pipe", "Pipe-é", "p 1", ""])
+    version = rng.choice([None, None, "1", "2025.1", ""])
     ops = []
     nodes = []          # real node names usable as wiring targets
     comps = []          # (name, comp key)
@@ -428,9 +429,9 @@ def gen_graph(rng, malformed=False):
             kind = rng.choice(["set_name", "set_version", "defcomp", "alias", "connect", "replace", "settings", "literal", "defconn"])
             cn, ck = rng.choice(comps)
             if kind == "set_name":
-                ops.append({"op": "set_name", "value": rng.choice([None, "renamed", "other é", name])})
+                ops.append({"op": "set_name", "value": rng.choice([None, "renamed", "other é", name, ""])})
             elif kind == "set_version":
-                ops.append({"op": "set_version", "value": rng.choice([None, "3", "2025.2", version])})
+                ops.append({"op": "set_version", "value": rng.choice([None, "3", "2025.2", version, ""])})
             elif kind == "defcomp":
                 ops.append({"op": "defcomp", "name": rng.choice(aliases + [c for c, _ in comps])})
             elif kind == "alias":
